@@ -7,6 +7,8 @@ import (
 	"context"
 	"io"
 	"net"
+	"runtime"
+	"sync/atomic"
 	"time"
 
 	"github.com/pion/stun/v3"
@@ -15,6 +17,7 @@ import (
 func init() {
 	verifRegister("verifC15HandleConn", verifC15HandleConn)
 	verifRegister("verifC15TwoPeers", verifC15TwoPeers)
+	verifRegister("verifC15CloseWithFullQueue", verifC15CloseWithFullQueue)
 }
 
 type verifListener struct {
@@ -258,4 +261,38 @@ func verifUnderlyingTCP(h net.PacketConn) *tcpPacketConn {
 	}
 	c, _ := sp.underlying.(*tcpPacketConn)
 	return c
+}
+
+// Close of a TCP packet conn returns although its receive queue is full and
+// nobody reads: the per-connection reader parked on the full queue is released
+// by the close, every TCP connection is closed, and Close comes back only after
+// the reader goroutines have ended. Explored over thread schedules.
+func verifC15CloseWithFullQueue() {
+	t := newTCPPacketConn(tcpPacketParams{ReadBuffer: 1, Logger: verifNopLogger{}, LocalAddr: verifAddr{"10.0.0.1:1"}})
+	var ended atomic.Int32
+	mk := func(i int, frames int) *verifStreamConn {
+		var stream []byte
+		for k := 0; k < frames; k++ {
+			stream = append(stream, verifFrame([]byte{byte(i), byte(k)})...)
+		}
+		return &verifStreamConn{data: stream, failAt: -1, remote: verifAddr{[]string{"20.0.0.7:7", "20.0.0.8:8"}[i]}, hold: make(chan struct{})}
+	}
+	c1 := mk(0, 1+verifChoice(2))
+	verifAssert(t.AddConn(c1, []byte{9, 9}) == nil, "AddConn-ok")
+	var c2 *verifStreamConn
+	if verifChoice(2) == 1 {
+		c2 = mk(1, 1)
+		verifAssert(t.AddConn(c2, nil) == nil, "AddConn-ok")
+	}
+	for n := verifChoice(4); n > 0; n-- { // let the readers fill the queue and park
+		runtime.Gosched()
+	}
+	if len(t.recvChan) == 1 {
+		verifReach("queue-full-at-close")
+	}
+	verifAssert(t.Close() == nil, "Close-returns") // a Close that never returns is a deadlock outcome
+	verifAssert(c1.closed >= 1 && (c2 == nil || c2.closed >= 1), "Close-closes-every-TCP-connection")
+	verifAssert(verifQuiesce() == 0, "Close-returns-only-after-the-reader-goroutines-ended")
+	_ = ended.Load()
+	verifReach("done")
 }
